@@ -64,6 +64,7 @@ async def _e2_cases(ctx, ncase):
                 b = cc.Builder(w, rng, disk=False)
                 made = b.grow(rng.randint(2, 7))
                 b.complete_all(made, fraction=rng.choice([1.0, 0.7]))
+                b.outdate_some(made, prob=0.2)
                 b.drop_random(made)
             await cc.update_meta(w)
             do_revert = rng.random() < 0.5
@@ -135,7 +136,16 @@ async def _finalize_cases(ctx, n):
     for k in range(n):
         hids = cc.HashIds()
         with cc.project_dir():
-            out.append(await cc.disk_case(ctx.rng, "none", hids))
+            if k % 4 == 3:
+                # three builds: output renamed while a new step still reads the old name
+                j = k // 4
+                w = cc.rename_witness(ctx.rng, volatile=(j % 2 == 1), third=["drop-b", "b-reads-new"][(j // 2) % 2],
+                                      tamper=(j % 5 == 4))
+                r = await cc.disk_case(ctx.rng, "none", hids, witness=w)
+                r["rename"] = w.info
+                out.append(r)
+            else:
+                out.append(await cc.disk_case(ctx.rng, "none", hids))
     return out
 
 
@@ -158,7 +168,14 @@ def _run_oracle(ctx, n, suffix=""):
         ctx.count("finalize_removed_paths", nrem)
         ctx.count("finalize_deleted_nodes", ndel)
         ctx.count("finalize_detached_survivors", sum(1 for x in r["after_graph"]["nodes"] if x["det"]))
+        if "rename" in r:
+            ctx.count("rename_three_build_cases", 1)
+            old = r["rename"]["old"]
+            ctx.count("rename_old_output_removed", int(old in r["before_fs"] and old not in r["after_fs"]))
+            ctx.count("rename_old_output_kept_after_user_edit", int(r["rename"]["tamper"] and old in r["after_fs"]))
         for sig, detail in cc.oracle_c07(r):
+            if sig == "finalize:orphan-file-kept" and r.get("rename", {}).get("volatile") and r["rename"]["old"] in detail:
+                sig = "rename:volatile-output-forgotten"     # same defect as the E3-level signature
             if sig not in seen:
                 seen.add(sig)
                 ctx.add_failure("oracle", "finalize", "oracle:" + sig + suffix, detail, witness=_wit(r))
@@ -181,6 +198,23 @@ def _e3_part(ctx, n):
         ctx.notes.append("harness/e3.py not importable: E3 part skipped")
         return
     seen = set()
+    from . import e3 as _e3
+    for j in range(max(6, n // 2)):
+        try:
+            viol, rec = cc.e3_rename_case(ctx.rng, volatile=(j % 2 == 1), third=["drop-b", "b-reads-new"][(j // 2) % 2],
+                                          tamper=(j % 6 >= 4))
+        except _e3.E3Error as exc:
+            ctx.count("e3_harness_errors", 1)
+            ctx.notes.append(f"e3 rename case: {str(exc)[:200]}")
+            continue
+        ctx.case(("e3-rename", repr(rec["info"])), True)
+        ctx.count("e3_rename_cases", 1)
+        ctx.count("e3_rename_middle_build_incomplete", int((rec["rc"][1] & ~8) != 0))
+        ctx.count("e3_rename_third_build_successful", int((rec["rc"][2] & ~8) == 0))
+        for sig, detail in viol:
+            if sig not in seen:
+                seen.add(sig)
+                ctx.add_failure("oracle", "e3-rename", sig, detail, witness=rec)
     for rec in cc.e3_histories(ctx.rng, n, 7000 + 1000 * ctx.seed):
         if "error" in rec:
             ctx.count("e3_harness_errors", 1)
